@@ -57,6 +57,24 @@ CANDS = ['', 'a', 1, 0, 1.5, 'yes', '2000-01-01', 'A', '#000000', 'C', 'major', 
 _valcache = {}
 
 
+def _from_sample(tname):
+    """candidate Python values from the reference model's sample lexical value of a simple type"""
+    from mc.ref import values as V
+    try:
+        sv = V.sample_value(tname)
+    except Exception:
+        return []
+    out = [sv]
+    try:
+        out.append(int(sv))
+    except ValueError:
+        try:
+            out.append(float(sv))
+        except ValueError:
+            pass
+    return out
+
+
 def valid_value(cls):
     """a value the class accepts (found by deterministic trial, reference enumerations first)"""
     if cls in _valcache:
@@ -72,6 +90,8 @@ def valid_value(cls):
                 if st and not st.startswith('xs:') and st in R.STYPES:
                     f = R.st_facets(st)
                     cands = list(f['enum']) + cands
+                if st:
+                    cands = _from_sample(st) + cands
                 break
     except Exception:
         pass
@@ -101,6 +121,7 @@ def req_attrs(cls, T):
         cands = list(ATTR_CANDS)
         if at and not at.startswith('xs:') and at in R.STYPES:
             cands = list(R.st_facets(at)['enum']) + cands
+        cands = _from_sample(at) + cands
         for v in cands:
             try:
                 with _quiet():
